@@ -54,6 +54,21 @@ def fanout_program(rng):
                      'id': gen.next_id('s')},
                 ]))
         roots.append({'name': 'w%d' % index, 'steps': steps})
+    if rng.random() < 0.5:
+        # one comparison object that is negated again and again: in a block that is left, and
+        # later in a plain wait - whatever the collector has done to the first negation meanwhile
+        for index in range(rng.randint(1, 3)):
+            shared = {'k': 'tracked', 'i': rng.randrange(2), 'cmp': rng.choice(['lt', 'le', 'ne']),
+                      'v': rng.randint(1, 3), 'share': 'neg%d' % index}
+            steps = [
+                {'op': 'scope', 'id': gen.next_id('s'), 'n': {'k': 'inv', 'a': dict(shared)},
+                 'catch': False, 'children': [], 'body': [
+                     {'op': 'wait', 'n': {'k': 'delay', 'd': rng.choice([0.5, 1])},
+                      'id': gen.next_id('s')}]},
+                {'op': 'wait', 'n': {'k': 'delay', 'd': rng.choice([0.5, 1])},
+                 'id': gen.next_id('s')},
+                {'op': 'wait', 'n': {'k': 'inv', 'a': dict(shared)}, 'id': gen.next_id('s')}]
+            roots.insert(rng.randrange(len(roots) + 1), {'name': 'n%d' % index, 'steps': steps})
     driver = []
     for _ in range(rng.randint(2, 8)):
         roll = rng.random()
@@ -191,7 +206,15 @@ def run_once(program):
     lines = [normalise(ev) for ev in sess.events]
     lines.append('outcome:%s' % env.outcome)
     digest = hashlib.sha1('\n'.join(lines).encode()).hexdigest()
-    trace_digest = sess.signature()
+    # The activation trace that is compared is that of the program's own activities. Helper
+    # coroutines of the library (the observer of a connective, the trigger of a date) are not
+    # observable; whether the observer of an *abandoned* condition gets one more activation
+    # depends on when the collector finalises it.
+    trace_hash = hashlib.blake2b(digest_size=8)
+    for label, when in sess.trace:
+        if not label.startswith('internal:'):
+            trace_hash.update(('%s@%r;' % (label, when)).encode())
+    trace_digest = trace_hash.hexdigest()
     concurrent_steps = 0
     by_time = {}
     for label, when in sess.trace:
@@ -230,7 +253,8 @@ def main(argv):
         if full is not None and index == full:
             record['lines'] = lines
             record['lines2'] = lines2
-            record['trace_list'] = [list(map(str, item)) for item in sess.trace]
+            record['trace_list'] = [list(map(str, item)) for item in sess.trace
+                                    if not item[0].startswith('internal:')]
         sys.stdout.write(json.dumps(record) + '\n')
 
 
